@@ -12,3 +12,4 @@ pub mod util;
 pub use tx::{blob_gas_price, effective_gas_price, execute, floor_gas, intrinsic_gas, validate};
 pub use types::*;
 pub use util::{create2_address, create_address, default_block_hash, keccak256, logs_hash, state_root, storage_root};
+pub mod vectors;
